@@ -252,7 +252,7 @@ theorem f128_fits : F128.impl.M ≤ 256 ^ F128.impl.bytes := by decide
 theorem byteDigest_RT (n : Nat) : (byteDigest n).RT := by
   intro bs rest hx
   simp only [byteDigest, beq_iff_eq] at hx
-  exact ⟨rfl, readSlice_append' hx rest⟩
+  exact ⟨rfl, readSlice_append_len hx rest⟩
 
 theorem map_mod_id (m : Nat) (l : List Nat) (h : l.all (· < m) = true) : l.map (· % m) = l := by
   induction l with
